@@ -117,31 +117,11 @@ func lockGuardSpecFor(c *core.Ctx, a *Anchors, needs func(f *core.Func, n ast.No
 
 func c05r4(c *core.Ctx) {
 	m := c.M
-	var reset *core.Func
-	for _, f := range m.Funcs {
-		if f.Recv == "cache" && f.Sig != nil && f.Sig.Params().Len() == 0 && f.Sig.Results().Len() == 0 {
-			for _, s := range m.AllFuncs() {
-				_ = s
-				break
-			}
-			stores := 0
-			core.InspectNoLits(f.Body, func(n ast.Node) bool {
-				if as, ok := n.(*ast.AssignStmt); ok {
-					for _, l := range as.Lhs {
-						if k := fieldKeyOf(m, l); k == "cache.filters" || k == "cache.indices" {
-							stores++
-						}
-					}
-				}
-				return true
-			})
-			if stores >= 2 {
-				reset = f
-			}
-		}
-	}
+	// the reset role of the cache: the function through which the reset chain of the world resets it
+	// (found from the exported entry point World.Reset by receiver type, not by name)
+	reset := resetFuncOf(c, "cache")
 	if reset == nil {
-		c.Undecide("C05/R4", "reset role", "no parameterless cache method re-assigning filters and indices")
+		c.Undecide("C05/R4", "reset role", "the reset chain from World.Reset reaches no result-less method of the cache")
 		return
 	}
 	// detaches every registered filter: loop over c.filters storing the unregistered marker into filter.cache
@@ -172,6 +152,12 @@ func c05r4(c *core.Ctx) {
 		case *ast.CallExpr:
 			if sel, ok := ast.Unparen(x.Fun).(*ast.SelectorExpr); ok && fieldKeyOf(m, sel.X) == "cache.intPool" {
 				poolReset = true
+			}
+			// clear(c.indices) empties the index as well as a re-assignment does
+			if id, ok := ast.Unparen(x.Fun).(*ast.Ident); ok && len(x.Args) == 1 {
+				if b, isB := m.Info.ObjectOf(id).(*types.Builtin); isB && b.Name() == "clear" && fieldKeyOf(m, x.Args[0]) == "cache.indices" {
+					idxCleared = true
+				}
 			}
 		}
 		return true
